@@ -413,7 +413,7 @@ func sameShape(a, b *SymStr) bool {
 }
 
 // fixedWidth reports whether every numeric part renders with exactly w digits.
-func fixedWidth(p strPart) bool {
+func (m *Machine) fixedWidth(p strPart) bool {
 	if p.kind != 1 || p.hex || p.w <= 0 {
 		return false
 	}
@@ -421,7 +421,10 @@ func fixedWidth(p strPart) bool {
 	for i := 0; i < p.w; i++ {
 		lim *= 10
 	}
-	return p.num.lo >= 0 && p.num.hi < lim
+	if p.num.lo >= 0 && p.num.hi < lim {
+		return true
+	}
+	return m.ex.proveRange(p.num, 0, lim-1)
 }
 
 // strEqConst: template match of a symbolic string against a constant.
@@ -526,7 +529,7 @@ func (m *Machine) fieldsOf(parts []strPart) ([]fld, bool) {
 		case 0:
 			fs = append(fs, fld{lit: p.lit})
 		case 1:
-			if !fixedWidth(p) {
+			if !m.fixedWidth(p) {
 				return nil, false
 			}
 			fs = append(fs, fld{num: p.num, w: p.w})
@@ -698,7 +701,7 @@ func (m *Machine) strLen(s *SymStr) value {
 		case 0:
 			n += int64(len(p.lit))
 		case 1:
-			if fixedWidth(p) {
+			if m.fixedWidth(p) {
 				n += int64(p.w)
 			} else {
 				fixed = false
